@@ -315,8 +315,20 @@ def c02_check(d, p, dec, enc):
         for f, fl in zip(d["Fields"], m.fields):
             if f["FieldType"] == "DATE" and fl.value is None:
                 cls = "absent-date"
-            if f.get("BitLength", 0) > 48 and f["FieldType"] in ("NUMBER",) and fl.value is not None:
-                cls = "wide-edge" if cls == "other" else cls
+        for f, fl in zip(d["Fields"], m.fields):
+            n = f.get("BitLength", 0)
+            if n > 48 and f["FieldType"] in ("NUMBER",) and isinstance(fl.value, (int, float)):
+                # the wide field is the culprit when its scaled value no longer fits (double rounding at the range edge)
+                sg = f.get("Signed", False)
+                lo, hi = (-(1 << (n - 1)), (1 << (n - 1)) - 2) if sg else (0, (1 << n) - 2)
+                try:
+                    q = round(fl.value / float(f.get("Resolution", 1)))
+                except Exception:  # noqa: BLE001
+                    q = None
+                if q is not None and not lo <= q <= hi:
+                    cls = "wide-edge"
+                elif cls == "other":
+                    cls = "wide-edge"
         return dict(base, key=f"reencode:raises:{cls}", what=f"PGN {d['PGN']} {d['Id']} payload {p:#x}: decoded, but re-encoding raised {e!r}")
     if "Length" in d and isinstance(d["Length"], int) and len(out) != d["Length"]:
         return dict(base, key="reencode:length", what=f"PGN {d['PGN']} {d['Id']}: re-encoded length {len(out)}, definition {d['Length']}")
